@@ -212,7 +212,7 @@ func (w *Writer) AddLog(l *LogRecord) error {
 		return fmt.Errorf("reftable: must specify RefName")
 	}
 
-	if !w.cfg.ExactLogMessage {
+	if !w.cfg.ExactLogMessage && !l.IsDeletion() {
 		l.Message = strings.TrimSpace(l.Message)
 		if strings.Contains(l.Message, "\n") {
 			return fmt.Errorf("reftable: log messages must be single line.")
@@ -222,7 +222,7 @@ func (w *Writer) AddLog(l *LogRecord) error {
 
 	if w.blockWriter != nil && w.blockWriter.getType() == blockTypeRef {
 		if err := w.finishPublicSection(); err != nil {
-			return nil
+			return err
 		}
 	}
 
